@@ -416,7 +416,7 @@ static std::string handleX(const std::string& line, std::string& stat, bool& tai
         std::string what = l.substr(l.find("runtime error:") + 15);
         if (!seen.insert(loc).second) continue;
         stat += "\tubsan_reports";
-        outl += vh::dumpLine({{"t", "mismatch"}, {"cls", {{"binder", "V"}, {"kind", "ubsan"}, {"where", loc}}}, {"case", caseJ},
+        outl += vh::dumpLine({{"t", "mismatch"}, {"cls", {{"binder", "V"}, {"kind", "ubsan"}, {"where", loc}, {"file", loc.substr(0, loc.find(':'))}, {"msg", what.substr(0, 60)}}}, {"case", caseJ},
                               {"why", "undefined behaviour inside a parser call: " + loc + ": " + what}});
     }
     if (kind.compare(0, 8, "Foreign:") == 0) {
